@@ -27,7 +27,24 @@ for d in sorted((V / "seeded").glob("*/")):
     rows.append("| %s | %s | %s — *needs:* %s | %s | %s |" % (
         d.name, meta.get("property", "?"), summary, needs,
         ", ".join(p for p, _ in det) or "**missed**", "; ".join(sorted({h for _, h in det})) + ((" — " + note) if note else "")))
-sec = (V / "tools" / "section12.md").read_text().replace("SEEDED_TABLE", "\n".join(rows))
+import subprocess
+kf = json.loads((V / "known_findings.json").read_text())["findings"]
+bycommit = {}
+for f in kf:
+    if f.get("status") == "fixed" and f.get("commit"):
+        bycommit.setdefault(f["commit"][:7], set()).add(f["property"])
+fix_rows = ["| commit | property | defect repaired (commit subject) |", "|---|---|---|"]
+log = subprocess.run(["git", "-C", "/repo", "log", "--reverse", "--format=%h %s"], capture_output=True, text=True).stdout
+for line in log.splitlines():
+    h, _, subj = line.partition(" ")
+    if subj.startswith("fix:"):
+        props = ", ".join(sorted(bycommit.get(h[:7], []))) or "see notes"
+        fix_rows.append("| %s | %s | %s |" % (h, props, subj[4:].strip().replace("|", "/")))
+open_rows = ["| property | signature | what fails |", "|---|---|---|"]
+for f in kf:
+    if f.get("status", "open") == "open":
+        open_rows.append("| %s | `%s` | %s |" % (f["property"], f["signature"], f["what"].replace("|", "/")[:260]))
+sec = (V / "tools" / "section12.md").read_text().replace("SEEDED_TABLE", "\n".join(rows)).replace("FIX_TABLE", "\n".join(fix_rows)).replace("OPEN_TABLE", "\n".join(open_rows))
 design = (V / "DESIGN.md").read_text()
 i = design.find("\n## 12. As built")
 if i >= 0:
